@@ -50,7 +50,11 @@ def gen_case(g):
             ops.append(g.const_operand(shape=shape, kind=lkind))
     if rng.random() < 0.1 and count >= 2:
         ops[1] = ops[0]  # same operand twice
-    return {"fn": rng.choice(FUNCS), "operands": ops}
+    case = {"fn": rng.choice(FUNCS), "operands": ops}
+    if rng.random() < 0.3:
+        # alignment forces the retain flags: the global options must not matter
+        case["options"] = {"retain_names": rng.random() < 0.4, "retain_coefficients": rng.random() < 0.5}
+    return case
 
 
 def expected_names(specs):
@@ -98,7 +102,14 @@ def run_case(case, ctx):
     facts = {"op": fn, "arity": len(specs), "kinds": "|".join(f["kind"] for f in feats),
              "view": any(f.get("view") for f in feats)}
     before = [snapshot(r) for r in real]
-    out, err = O.call_guard(getattr(numpoly, fn), *real)
+    options = case.get("options") or {}
+    facts["options"] = ",".join(f"{k}={v}" for k, v in sorted(options.items()))
+    defaults = numpoly.get_options()
+    try:
+        with numpoly.global_options(**options):
+            out, err = O.call_guard(getattr(numpoly, fn), *real)
+    finally:
+        numpoly.set_options(**defaults)
     for n, (r, snap) in enumerate(zip(real, before)):
         diff = changed(snap, snapshot(r))
         if diff:
@@ -131,7 +142,21 @@ def run_case(case, ctx):
         facts["failure"] = "shape"
         ctx.violation(facts, f"{fn}: shapes {[o.shape for o in out]} != {common}", case)
         return
-    if aligns_names:
+    if aligns_names and options:
+        # under non-default retain options unused input names may legitimately be dropped:
+        # the outputs must still share one name tuple, in index order, covering what is used
+        shared = tuple(out[0].names)
+        needed = set()
+        for m in mods:
+            needed |= M.all_names(m)
+        for n, o in enumerate(out):
+            if tuple(o.names) != shared or list(shared) != sorted(shared, key=M.numsuffix) or \
+                    not needed <= set(shared):
+                facts["failure"] = "names"
+                ctx.violation(facts, f"{fn} under {options}: output {n} names {o.names}; output 0 "
+                                     f"names {shared}; names in use {sorted(needed)}", case)
+                return
+    elif aligns_names:
         want_names = expected_names(specs)
         for n, o in enumerate(out):
             if tuple(o.names) != want_names:
